@@ -50,6 +50,7 @@ let wiring_names = List.map (fun (i, n) -> (int_of_nat i, ostr_of n)) D.d_wiring
 let types = List.map (fun (t, l) -> (ostr_of t, l)) D.d_types
 
 type cse = { cn : D.cls -> D.string; wiring : (D.nat * D.cls) list; t0 : D.trec; imem : D.inst -> D.nat -> bool;
+             t2 : D.trec; imem2 : D.inst -> D.nat -> bool;      (* the second type of '~' elements *)
              cast_id : int; threads : string list list; seed : int }
 
 let parse_case line : cse =
@@ -70,13 +71,17 @@ let parse_case line : cse =
     let imem i m = let i = int_of_nat i and m = int_of_nat m in
       i < Array.length masks && m < 3 && (masks.(i) lsr m) land 1 = 1 in
     let t0 = D.cold_type cache_num (List.mapi (fun pos (c, _) -> (names.(c), nat_of_int pos)) dl) in
-    { cn; wiring; t0; imem; cast_id = find_at "Cast";
+    let imem2 i m = let i = int_of_nat i and m = int_of_nat m in
+      i < Array.length masks && m < 3 && ((masks.(i) lxor 5) lsr m) land 1 = 1 in
+    { cn; wiring; t0; imem; t2 = t0; imem2; cast_id = find_at "Cast";
       threads = List.map words (String.split_on_char '/' ops); seed = int_of_string seed }
   | [ "B"; tname; _; ops; seed ] ->
     let insts = List.assoc tname types in
     let rec idx n = function [] -> -1 | x :: r -> if x = "Cast" then n else idx (n + 1) r in
     { cn = D.cn_of D.d_objects; wiring = (if nocache then [] else D.wiring_ids D.d_objects D.d_wiring);
       t0 = D.cold_type cache_num (D.builtin_decl insts); imem = D.builtin_imem insts;
+      t2 = (let i2 = List.assoc (if tname = "Int" then "Float" else "Int") types in D.cold_type cache_num (D.builtin_decl i2));
+      imem2 = D.builtin_imem (List.assoc (if tname = "Int" then "Float" else "Int") types);
       cast_id = idx 0 objects; threads = List.map words (String.split_on_char '/' ops); seed = int_of_string seed }
   | _ -> failwith "bad case"
 
@@ -111,6 +116,29 @@ let result cs (l, m, rest) (v : D.inst option) : string =
       | D.CRaise D.ValueError -> "ValueError;noinv" | D.CRaise D.ClassError -> "ClassError;noinv")
   | _ -> failwith "bad op letter"
 
+(* S<elem>+<elem>...: calls back to back inside one try block; the first raise ends the sequence.
+   look second c = instance the lookup on the first / second type produces (threads the model state, or the spec) *)
+let seq_result cs (look : bool -> int -> D.inst option) tok : string =
+  let els = String.split_on_char '+' (String.sub tok 1 (String.length tok - 1)) in
+  let out = ref [] and stop = ref false in
+  List.iter (fun el ->
+      if not !stop then begin
+        let second = el.[0] = '~' in
+        let el = if second then String.sub el 1 (String.length el - 1) else el in
+        let l = el.[0] in
+        let c, k = match String.split_on_char '.' (String.sub el 1 (String.length el - 1)) with
+          | [ c; k ] -> (int_of_string c, int_of_string k) | _ -> failwith ("bad seq element " ^ el) in
+        let v = look second c in
+        let imem = if second then cs.imem2 else cs.imem in
+        match D.method_result imem true v (nat_of_int k) with
+        | D.MInvoke (i, m) ->
+          out := (if l = 'm' || l = 'n' then string_of_int (int_of_nat i)
+                  else Printf.sprintf "inv%d.%d" ((int_of_nat i + (if second then 8 else 0)) mod 16) (int_of_nat m)) :: !out
+        | D.MRaise _ -> out := (if l = 'm' || l = 'n' then "ClassError" else "ClassError;noinv") :: !out; stop := true
+        | D.MCrash -> out := "CRASH" :: !out; stop := true
+      end) els;
+  String.concat "," (List.rev !out)
+
 let dump (t : D.trec) =
   let cs = List.filteri (fun _ x -> x <> None) (List.mapi (fun i v -> match v with None -> None | Some x -> Some (i, int_of_nat x)) t.D.cache) in
   let cs = List.map (function Some (i, x) -> Printf.sprintf "%d:%d" i x | None -> "") cs in
@@ -128,9 +156,25 @@ let () =
           (match cs.threads with
            | [ ops ] ->
              let ok = ref true in
+             let t2 = ref cs.t2 in
              let _ = List.fold_left (fun (t, first) tok ->
-                 let (k, c, m, l, rest) = parse_op cs tok in
                  if not first then Buffer.add_char buf ' ';
+                 if tok.[0] = 'S' then begin
+                   if mode = "spec" then begin
+                     Buffer.add_string buf (tok ^ "=" ^ seq_result cs (fun second c ->
+                         D.spec_lookup cs.cn (if second then cs.t2 else cs.t0).D.trips (nat_of_int c)) tok); (t, false)
+                   end else begin
+                     let tr = ref t and bad = ref false in
+                     let r = seq_result cs (fun second c ->
+                         match D.lookup cs.cn cs.wiring D.KInstance (nat_of_int c) (if second then !t2 else !tr) with
+                         | D.ROk (t', v) -> (if second then t2 := t' else tr := t'); v
+                         | _ -> bad := true; None) tok in
+                     Buffer.add_string buf (tok ^ "=" ^ (if !bad then "CORRUPT" else r) ^ dump !tr);
+                     if not (D.check_inv cs.cn cs.wiring !tr) then ok := false;
+                     (!tr, false)
+                   end
+                 end else
+                 let (k, c, m, l, rest) = parse_op cs tok in
                  if mode = "spec" then begin
                    Buffer.add_string buf (tok ^ "=" ^ result cs (l, m, rest) (D.spec_lookup cs.cn cs.t0.D.trips (nat_of_int c))); (t, false)
                  end else
